@@ -532,3 +532,265 @@ Proof. exact @tiea_is_symmetric. Qed.
 Theorem C01_model_is_source_is_positive_definite :
   forall (T : Type) (O : Ops T) (m : list T), src_is_positive_definite O is_square_z m = is_positive_definite O m.
 Proof. exact @tiea_is_positive_definite. Qed.
+
+(** ** Floating point (extension): the CHOLESKY BRANCH of [solve] end to end on binary64
+
+    Composition of the two binary64 theorems of property C11: [C11_cholesky_backward_error_binary64]
+    (A = L L^T + dA0, |dA0| <= gamma_(n+1) |L||L^T|) and [C11_cholesky_solve_backward_error_binary64]
+    (T1 (T2 x) = b, |T1 - L| <= gamma_n |L|, |T2 - L^T| <= gamma_n |L^T|).  When the routing predicate accepts A and the
+    fallible sweep returns a factor (the Cholesky branch of [solve]; [solve_sys] and [invert_matrix] run the same
+    branch once per column: [C01_solve_sys_layout]), the COMPUTED solution x is the EXACT solution of
+         (A + dA) x = b ,    |dA|_ij  <=  gamma' (|L| |L^T|)_ij ,    gamma' = (1 + 2^-53)^(3n+1) - 1 ,
+    componentwise, with A' = A + dA = T1 T2 and [b] unperturbed  (gamma_(n+1) + (1 + gamma_n)^2 - 1 <= gamma_(3n+1)).
+    Hypotheses: those of the two theorems (every entry of the computed L, of the intermediate y and of x finite: no
+    overflow; no underflowing product or quotient, stated on the exact products / quotients of computed values, the
+    numerators written out as subterms of the model; reducible to conditions on computed values by
+    [C11_*_conditions_from_computed_values]).  The code reads the lower triangle of A only: the statement is about the
+    mirrored lower triangle, and about A itself when its real values are exactly symmetric.  [y] is the computed
+    intermediate vector, [lt] the transposed factor. *)
+From Coq Require Import Floats.
+From Compute Require Import Spec.Vops Proofs.C04ErrF Proofs.C11_FloatChol Proofs.C11_FloatCholEx Proofs.C01_FloatChol.
+Local Open Scope R_scope.
+
+(** the branch, on EVERY carrier (hence bit for bit on binary64) *)
+Theorem C01_solve_cholesky_branch :
+  forall (T : Type) (O : Ops T) (a b l x : list T),
+    slice_solve O a b = Some x -> is_positive_definite O a = Some true -> try_cholesky O a = Some (Some l) ->
+    length a = (length b * length b)%nat /\ cholesky O a = Some l /\ cholesky_solve O l b = Some x.
+Proof. exact @solve_cholesky_branch. Qed.
+
+Theorem C01_cholesky_branch_backward_error_binary64 :
+  forall (tbl : libm_table) (a b l y lt x : list float) (n : nat),
+    slice_solve (FO tbl) a b = Some x -> is_positive_definite (FO tbl) a = Some true ->
+    try_cholesky (FO tbl) a = Some (Some l) -> length b = n ->
+    forward_substitution (FO tbl) l b = Some y -> transpose (FO tbl) l n = Some lt ->
+    Forall finite l -> Forall finite y -> Forall finite x ->
+    (* the factorisation *)
+    (forall i j k, (i < n)%nat -> (j <= i)%nat -> (k < j)%nat ->
+       B2Rf (nth (j * n + k) l 0%float) * B2Rf (nth (i * n + k) l 0%float) = 0 \/
+       / 2 ^ 1022 <= Rabs (B2Rf (nth (j * n + k) l 0%float) * B2Rf (nth (i * n + k) l 0%float))) ->
+    (forall i j, (i < n)%nat -> (j < i)%nat ->
+       let s := (nth (i * n + j) a 0 - dot_raw (FO tbl) (firstn j (skipn (j * n) l)) (firstn j (skipn (i * n) l)))%float in
+       B2Rf s / B2Rf (nth (j * n + j) l 0%float) = 0 \/ / 2 ^ 1022 <= Rabs (B2Rf s / B2Rf (nth (j * n + j) l 0%float))) ->
+    (* forward solve L y = b *)
+    (forall i j, (i < n)%nat -> (j < i)%nat ->
+       B2Rf (nth (i * n + j) l 0%float) * B2Rf (nth j y 0%float) = 0 \/
+       / 2 ^ 1022 <= Rabs (B2Rf (nth (i * n + j) l 0%float) * B2Rf (nth j y 0%float))) ->
+    (forall i, (i < n)%nat ->
+       let s := (nth i b 0 - dot_raw (FO tbl) (firstn i (skipn (i * n) l)) (firstn i y))%float in
+       B2Rf s / B2Rf (nth (i * n + i) l 0%float) = 0 \/ / 2 ^ 1022 <= Rabs (B2Rf s / B2Rf (nth (i * n + i) l 0%float))) ->
+    (* backward solve L^T x = y (entry (i,j) of L^T is l[j*n+i]) *)
+    (forall i j, (i < j)%nat -> (j < n)%nat ->
+       B2Rf (nth (j * n + i) l 0%float) * B2Rf (nth j x 0%float) = 0 \/
+       / 2 ^ 1022 <= Rabs (B2Rf (nth (j * n + i) l 0%float) * B2Rf (nth j x 0%float))) ->
+    (forall i, (i < n)%nat ->
+       let s := (nth i y 0 - dot_raw (FO tbl) (firstn (n - S i) (skipn (i * n + S i) lt)) (skipn (S i) x))%float in
+       B2Rf s / B2Rf (nth (i * n + i) l 0%float) = 0 \/ / 2 ^ 1022 <= Rabs (B2Rf s / B2Rf (nth (i * n + i) l 0%float))) ->
+    let A := map B2Rf a in let L := map B2Rf l in let B := map B2Rf b in let X := map B2Rf x in
+    let gamma' := (1 + / 2 ^ 53) ^ (3 * n + 1) - 1 in
+    cholesky_solve (FO tbl) l b = Some x /\
+    exists A' : list R,
+      length A' = (n * n)%nat /\
+      (forall i, (i < n)%nat -> mvec A' n X i = nth i B 0) /\
+      (forall i j, (i < n)%nat -> (j < n)%nat ->
+         Rabs (getm A' n i j - getm A n (Nat.max i j) (Nat.min i j))
+         <= gamma' * rsum (fun k => Rabs (getm L n i k) * Rabs (getm L n j k)) n) /\
+      (symmetric A n ->
+       forall i j, (i < n)%nat -> (j < n)%nat ->
+         Rabs (getm A' n i j - getm A n i j) <= gamma' * rsum (fun k => Rabs (getm L n i k) * Rabs (getm L n j k)) n).
+Proof. exact solve_cholesky_branch_backward_error. Qed.
+
+(** the same for [cholesky] followed by [cholesky_solve] called directly *)
+Theorem C01_cholesky_then_solve_backward_error_binary64 :
+  forall (tbl : libm_table) (a b l y lt x : list float) (n : nat),
+    cholesky (FO tbl) a = Some l -> (n * n)%nat = length a ->
+    cholesky_solve (FO tbl) l b = Some x ->
+    forward_substitution (FO tbl) l b = Some y -> transpose (FO tbl) l n = Some lt ->
+    Forall finite l -> Forall finite y -> Forall finite x ->
+    (forall i j k, (i < n)%nat -> (j <= i)%nat -> (k < j)%nat ->
+       B2Rf (nth (j * n + k) l 0%float) * B2Rf (nth (i * n + k) l 0%float) = 0 \/
+       / 2 ^ 1022 <= Rabs (B2Rf (nth (j * n + k) l 0%float) * B2Rf (nth (i * n + k) l 0%float))) ->
+    (forall i j, (i < n)%nat -> (j < i)%nat ->
+       let s := (nth (i * n + j) a 0 - dot_raw (FO tbl) (firstn j (skipn (j * n) l)) (firstn j (skipn (i * n) l)))%float in
+       B2Rf s / B2Rf (nth (j * n + j) l 0%float) = 0 \/ / 2 ^ 1022 <= Rabs (B2Rf s / B2Rf (nth (j * n + j) l 0%float))) ->
+    (forall i j, (i < n)%nat -> (j < i)%nat ->
+       B2Rf (nth (i * n + j) l 0%float) * B2Rf (nth j y 0%float) = 0 \/
+       / 2 ^ 1022 <= Rabs (B2Rf (nth (i * n + j) l 0%float) * B2Rf (nth j y 0%float))) ->
+    (forall i, (i < n)%nat ->
+       let s := (nth i b 0 - dot_raw (FO tbl) (firstn i (skipn (i * n) l)) (firstn i y))%float in
+       B2Rf s / B2Rf (nth (i * n + i) l 0%float) = 0 \/ / 2 ^ 1022 <= Rabs (B2Rf s / B2Rf (nth (i * n + i) l 0%float))) ->
+    (forall i j, (i < j)%nat -> (j < n)%nat ->
+       B2Rf (nth (j * n + i) l 0%float) * B2Rf (nth j x 0%float) = 0 \/
+       / 2 ^ 1022 <= Rabs (B2Rf (nth (j * n + i) l 0%float) * B2Rf (nth j x 0%float))) ->
+    (forall i, (i < n)%nat ->
+       let s := (nth i y 0 - dot_raw (FO tbl) (firstn (n - S i) (skipn (i * n + S i) lt)) (skipn (S i) x))%float in
+       B2Rf s / B2Rf (nth (i * n + i) l 0%float) = 0 \/ / 2 ^ 1022 <= Rabs (B2Rf s / B2Rf (nth (i * n + i) l 0%float))) ->
+    let A := map B2Rf a in let L := map B2Rf l in let B := map B2Rf b in let X := map B2Rf x in
+    let gamma' := (1 + / 2 ^ 53) ^ (3 * n + 1) - 1 in
+    exists A' : list R,
+      length A' = (n * n)%nat /\
+      (forall i, (i < n)%nat -> mvec A' n X i = nth i B 0) /\
+      (forall i j, (i < n)%nat -> (j < n)%nat ->
+         Rabs (getm A' n i j - getm A n (Nat.max i j) (Nat.min i j))
+         <= gamma' * rsum (fun k => Rabs (getm L n i k) * Rabs (getm L n j k)) n) /\
+      (symmetric A n ->
+       forall i j, (i < n)%nat -> (j < n)%nat ->
+         Rabs (getm A' n i j - getm A n i j) <= gamma' * rsum (fun k => Rabs (getm L n i k) * Rabs (getm L n j k)) n).
+Proof. exact cholesky_then_solve_backward_error. Qed.
+
+(** the hypotheses are satisfiable: A = [[3,1,1],[1,3,1],[1,1,3]] (SPD, no entry of its factor representable),
+    b = (1,1,1), solved through [solve] inside Coq on binary64: the Cholesky branch is taken *)
+Example C01_example_cholesky_branch_backward_error :
+  let a := [3; 1; 1;  1; 3; 1;  1; 1; 3]%float in let b := [1; 1; 1]%float in
+  exists l y lt x,
+    slice_solve FO0 a b = Some x /\ is_positive_definite FO0 a = Some true /\
+    try_cholesky FO0 a = Some (Some l) /\ length b = 3%nat /\
+    forward_substitution FO0 l b = Some y /\ transpose FO0 l 3 = Some lt /\
+    Forall finite l /\ Forall finite y /\ Forall finite x /\
+    (forall i j k, (i < 3)%nat -> (j <= i)%nat -> (k < j)%nat ->
+       B2Rf (nth (j * 3 + k) l 0%float) * B2Rf (nth (i * 3 + k) l 0%float) = 0 \/
+       / 2 ^ 1022 <= Rabs (B2Rf (nth (j * 3 + k) l 0%float) * B2Rf (nth (i * 3 + k) l 0%float))) /\
+    (forall i j, (i < 3)%nat -> (j < i)%nat ->
+       let s := (nth (i * 3 + j) a 0 - dot_raw FO0 (firstn j (skipn (j * 3) l)) (firstn j (skipn (i * 3) l)))%float in
+       B2Rf s / B2Rf (nth (j * 3 + j) l 0%float) = 0 \/ / 2 ^ 1022 <= Rabs (B2Rf s / B2Rf (nth (j * 3 + j) l 0%float))) /\
+    (forall i j, (i < 3)%nat -> (j < i)%nat ->
+       B2Rf (nth (i * 3 + j) l 0%float) * B2Rf (nth j y 0%float) = 0 \/
+       / 2 ^ 1022 <= Rabs (B2Rf (nth (i * 3 + j) l 0%float) * B2Rf (nth j y 0%float))) /\
+    (forall i, (i < 3)%nat ->
+       let s := (nth i b 0 - dot_raw FO0 (firstn i (skipn (i * 3) l)) (firstn i y))%float in
+       B2Rf s / B2Rf (nth (i * 3 + i) l 0%float) = 0 \/ / 2 ^ 1022 <= Rabs (B2Rf s / B2Rf (nth (i * 3 + i) l 0%float))) /\
+    (forall i j, (i < j)%nat -> (j < 3)%nat ->
+       B2Rf (nth (j * 3 + i) l 0%float) * B2Rf (nth j x 0%float) = 0 \/
+       / 2 ^ 1022 <= Rabs (B2Rf (nth (j * 3 + i) l 0%float) * B2Rf (nth j x 0%float))) /\
+    (forall i, (i < 3)%nat ->
+       let s := (nth i y 0 - dot_raw FO0 (firstn (3 - S i) (skipn (i * 3 + S i) lt)) (skipn (S i) x))%float in
+       B2Rf s / B2Rf (nth (i * 3 + i) l 0%float) = 0 \/ / 2 ^ 1022 <= Rabs (B2Rf s / B2Rf (nth (i * 3 + i) l 0%float))) /\
+    symmetric (map B2Rf a) 3.
+Proof. exact solve_cholesky_branch_example. Qed.
+
+(** ** Floating point (extension): the LU BRANCH of [solve], and [Matrix::solve] (always LU), end to end on binary64
+
+    Composition of [C11_lu_backward_error_binary64] (P A = L U + dA0, |dA0| <= gamma_n |L||U|, every run of the pivoted
+    factorisation) with [C11_lu_solve_backward_error_binary64] (L' (U' x) = P b, |L' - L| <= gamma_n |L|,
+    |U' - U| <= gamma_n |U|): whenever [solve] takes the LU branch — the routing predicate rejects A, or accepts it
+    and the fallible Cholesky sweep meets a non-positive pivot (the D1 repair) — the COMPUTED x is the EXACT solution of
+         (P A + dA) x = P b ,     |dA|_ij  <=  gamma' (|L| |U|)_ij ,     gamma' = (1 + 2^-53)^(3n) - 1
+    (Higham, Thm 9.4), componentwise, [b] unperturbed, A' = P A + dA = L' U'; row i of P A / P b is row [nth i piv 0]
+    of A / b, [piv] the pivot vector returned by [lu] (a permutation).  Together with
+    [C01_cholesky_branch_backward_error_binary64] every branch of [solve] has its binary64 backward-error theorem.
+    Hypotheses: every entry of the computed factors, of the intermediate y and of x finite; nonzero pivots; no
+    underflowing product or quotient (numerators written out as subterms of the model).  [y] is the vector after the
+    forward sweep. *)
+From Coq Require Import Permutation.
+From Compute Require Import Proofs.C11_FloatLU Proofs.C11_FloatLUSolve Proofs.C01_FloatLU.
+
+Theorem C01_solve_lu_branch :
+  forall (T : Type) (O : Ops T) (a b x : list T),
+    slice_solve O a b = Some x ->
+    (is_positive_definite O a = Some false \/ (is_positive_definite O a = Some true /\ try_cholesky O a = Some None)) ->
+    length a = (length b * length b)%nat /\
+    exists m piv, lu O a = Some (m, piv) /\ lu_solve O m piv b = Some x.
+Proof. exact @solve_lu_branch. Qed.
+
+Theorem C01_lu_branch_backward_error_binary64 :
+  forall (tbl : libm_table) (a b m y x : list float) (piv : list nat) (n : nat),
+    slice_solve (FO tbl) a b = Some x ->
+    (is_positive_definite (FO tbl) a = Some false \/
+     (is_positive_definite (FO tbl) a = Some true /\ try_cholesky (FO tbl) a = Some None)) ->
+    lu (FO tbl) a = Some (m, piv) -> length b = n ->
+    y = fwd_elim (FO tbl) (unflatten m n n) n (map (fun p => nth p b 0%float) piv) ->
+    Forall finite m -> Forall finite y -> Forall finite x ->
+    (forall j, (j < n)%nat -> B2Rf (nth (j * n + j) m 0%float) <> 0) ->
+    (* the factorisation *)
+    (forall i j k, (i < n)%nat -> (j < n)%nat -> (k < Nat.min i j)%nat ->
+       B2Rf (nth (i * n + k) m 0%float) * B2Rf (nth (k * n + j) m 0%float) = 0 \/
+       / 2 ^ 1022 <= Rabs (B2Rf (nth (i * n + k) m 0%float) * B2Rf (nth (k * n + j) m 0%float))) ->
+    (forall i j, (i < n)%nat -> (j < i)%nat ->
+       let s := (nth (nth i piv 0%nat * n + j) a 0
+                 - fold_left (fun acc k => acc + nth (i * n + k) m 0 * nth (k * n + j) m 0) (seq 0 j) 0)%float in
+       B2Rf s / B2Rf (nth (j * n + j) m 0%float) = 0 \/ / 2 ^ 1022 <= Rabs (B2Rf s / B2Rf (nth (j * n + j) m 0%float))) ->
+    (* forward sweep L y = P b *)
+    (forall i k, (i < n)%nat -> (k < i)%nat ->
+       B2Rf (nth k y 0%float) * B2Rf (nth (i * n + k) m 0%float) = 0 \/
+       / 2 ^ 1022 <= Rabs (B2Rf (nth k y 0%float) * B2Rf (nth (i * n + k) m 0%float))) ->
+    (* backward sweep U x = y *)
+    (forall i k, (i < k)%nat -> (k < n)%nat ->
+       B2Rf (nth k x 0%float) * B2Rf (nth (i * n + k) m 0%float) = 0 \/
+       / 2 ^ 1022 <= Rabs (B2Rf (nth k x 0%float) * B2Rf (nth (i * n + k) m 0%float))) ->
+    (forall i, (i < n)%nat ->
+       let s := fold_left (fun s k => (s - nth k x 0 * nth (i * n + k) m 0)%float) (rev (seq (S i) (n - S i))) (nth i y 0%float) in
+       B2Rf s / B2Rf (nth (i * n + i) m 0%float) = 0 \/ / 2 ^ 1022 <= Rabs (B2Rf s / B2Rf (nth (i * n + i) m 0%float))) ->
+    let A := map B2Rf a in let M := map B2Rf m in let B := map B2Rf b in let X := map B2Rf x in
+    let gamma' := (1 + / 2 ^ 53) ^ (3 * n) - 1 in
+    lu_solve (FO tbl) m piv b = Some x /\ is_perm piv n /\
+    exists A' : list R,
+      length A' = (n * n)%nat /\
+      (forall i, (i < n)%nat -> mvec A' n X i = nth (nth i piv 0%nat) B 0) /\
+      (forall i j, (i < n)%nat -> (j < n)%nat ->
+         Rabs (getm A' n i j - getm A n (nth i piv 0%nat) j)
+         <= gamma' * rsum (fun k => Rabs (Lof M n i k) * Rabs (Uof M n k j)) n).
+Proof. exact solve_lu_branch_backward_error. Qed.
+
+(** [Matrix::solve] for a vector right-hand side (always LU) *)
+Theorem C01_matrix_solve_backward_error_binary64 :
+  forall (tbl : libm_table) (mm : matrix (T:=float)) (b m y x : list float) (piv : list nat),
+    mat_solve_vec (FO tbl) mm b = Some x -> lu (FO tbl) (dat mm) = Some (m, piv) ->
+    let n := nr mm in let a := dat mm in
+    y = fwd_elim (FO tbl) (unflatten m n n) n (map (fun p => nth p b 0%float) piv) ->
+    Forall finite m -> Forall finite y -> Forall finite x ->
+    (forall j, (j < n)%nat -> B2Rf (nth (j * n + j) m 0%float) <> 0) ->
+    (forall i j k, (i < n)%nat -> (j < n)%nat -> (k < Nat.min i j)%nat ->
+       B2Rf (nth (i * n + k) m 0%float) * B2Rf (nth (k * n + j) m 0%float) = 0 \/
+       / 2 ^ 1022 <= Rabs (B2Rf (nth (i * n + k) m 0%float) * B2Rf (nth (k * n + j) m 0%float))) ->
+    (forall i j, (i < n)%nat -> (j < i)%nat ->
+       let s := (nth (nth i piv 0%nat * n + j) a 0
+                 - fold_left (fun acc k => acc + nth (i * n + k) m 0 * nth (k * n + j) m 0) (seq 0 j) 0)%float in
+       B2Rf s / B2Rf (nth (j * n + j) m 0%float) = 0 \/ / 2 ^ 1022 <= Rabs (B2Rf s / B2Rf (nth (j * n + j) m 0%float))) ->
+    (forall i k, (i < n)%nat -> (k < i)%nat ->
+       B2Rf (nth k y 0%float) * B2Rf (nth (i * n + k) m 0%float) = 0 \/
+       / 2 ^ 1022 <= Rabs (B2Rf (nth k y 0%float) * B2Rf (nth (i * n + k) m 0%float))) ->
+    (forall i k, (i < k)%nat -> (k < n)%nat ->
+       B2Rf (nth k x 0%float) * B2Rf (nth (i * n + k) m 0%float) = 0 \/
+       / 2 ^ 1022 <= Rabs (B2Rf (nth k x 0%float) * B2Rf (nth (i * n + k) m 0%float))) ->
+    (forall i, (i < n)%nat ->
+       let s := fold_left (fun s k => (s - nth k x 0 * nth (i * n + k) m 0)%float) (rev (seq (S i) (n - S i))) (nth i y 0%float) in
+       B2Rf s / B2Rf (nth (i * n + i) m 0%float) = 0 \/ / 2 ^ 1022 <= Rabs (B2Rf s / B2Rf (nth (i * n + i) m 0%float))) ->
+    let A := map B2Rf a in let M := map B2Rf m in let B := map B2Rf b in let X := map B2Rf x in
+    let gamma' := (1 + / 2 ^ 53) ^ (3 * n) - 1 in
+    lu_solve (FO tbl) m piv b = Some x /\ is_perm piv n /\
+    exists A' : list R,
+      length A' = (n * n)%nat /\
+      (forall i, (i < n)%nat -> mvec A' n X i = nth (nth i piv 0%nat) B 0) /\
+      (forall i j, (i < n)%nat -> (j < n)%nat ->
+         Rabs (getm A' n i j - getm A n (nth i piv 0%nat) j)
+         <= gamma' * rsum (fun k => Rabs (Lof M n i k) * Rabs (Uof M n k j)) n).
+Proof. exact matrix_solve_backward_error. Qed.
+
+(** satisfiable: [[1,3,1],[3,1,1],[1,1,3]] is symmetric with a positive diagonal (the routing predicate accepts it) but
+    indefinite: the fallible Cholesky sweep meets the pivot 1 - 9 < 0, [solve] falls back to LU, rows 0 and 1 are exchanged *)
+Example C01_example_lu_branch_backward_error :
+  let a := [1; 3; 1;  3; 1; 1;  1; 1; 3]%float in let b := [1; 1; 1]%float in
+  exists m piv y x,
+    slice_solve FO0 a b = Some x /\
+    (is_positive_definite FO0 a = Some true /\ try_cholesky FO0 a = Some None) /\
+    lu FO0 a = Some (m, piv) /\ length b = 3%nat /\
+    y = fwd_elim FO0 (unflatten m 3 3) 3 (map (fun p => nth p b 0%float) piv) /\
+    Forall finite m /\ Forall finite y /\ Forall finite x /\
+    (forall j, (j < 3)%nat -> B2Rf (nth (j * 3 + j) m 0%float) <> 0) /\
+    (forall i j k, (i < 3)%nat -> (j < 3)%nat -> (k < Nat.min i j)%nat ->
+       B2Rf (nth (i * 3 + k) m 0%float) * B2Rf (nth (k * 3 + j) m 0%float) = 0 \/
+       / 2 ^ 1022 <= Rabs (B2Rf (nth (i * 3 + k) m 0%float) * B2Rf (nth (k * 3 + j) m 0%float))) /\
+    (forall i j, (i < 3)%nat -> (j < i)%nat ->
+       let s := (nth (nth i piv 0%nat * 3 + j) a 0
+                 - fold_left (fun acc k => acc + nth (i * 3 + k) m 0 * nth (k * 3 + j) m 0) (seq 0 j) 0)%float in
+       B2Rf s / B2Rf (nth (j * 3 + j) m 0%float) = 0 \/ / 2 ^ 1022 <= Rabs (B2Rf s / B2Rf (nth (j * 3 + j) m 0%float))) /\
+    (forall i k, (i < 3)%nat -> (k < i)%nat ->
+       B2Rf (nth k y 0%float) * B2Rf (nth (i * 3 + k) m 0%float) = 0 \/
+       / 2 ^ 1022 <= Rabs (B2Rf (nth k y 0%float) * B2Rf (nth (i * 3 + k) m 0%float))) /\
+    (forall i k, (i < k)%nat -> (k < 3)%nat ->
+       B2Rf (nth k x 0%float) * B2Rf (nth (i * 3 + k) m 0%float) = 0 \/
+       / 2 ^ 1022 <= Rabs (B2Rf (nth k x 0%float) * B2Rf (nth (i * 3 + k) m 0%float))) /\
+    (forall i, (i < 3)%nat ->
+       let s := fold_left (fun s k => (s - nth k x 0 * nth (i * 3 + k) m 0)%float) (rev (seq (S i) (3 - S i))) (nth i y 0%float) in
+       B2Rf s / B2Rf (nth (i * 3 + i) m 0%float) = 0 \/ / 2 ^ 1022 <= Rabs (B2Rf s / B2Rf (nth (i * 3 + i) m 0%float))).
+Proof. exact solve_lu_branch_example. Qed.
